@@ -13,10 +13,13 @@ SCOPE = ("Complete enumeration, on every run, of (L) all natural loops of the cr
          "checks must hold; (P) all explicit panic-capable call sites (unwrap/expect/panic!/RefCell borrows/"
          "copy_from_slice/drain) each auto-discharged from established facts or listed with a reason and linked "
          "checks, plus a RefCell borrow-discipline rule over guard live ranges and the call graph; (B) debug "
-         "assertions about wire-fed parameters that no runtime guard backs; (V) presence of every refusal clause of "
+         "assertions about wire-fed parameters that no runtime guard backs; (T) debug assertions about the receiving "
+         "side's own state: dominated by a runtime test or a reviewed invariant with a frozen writer set and linked "
+         "structural checks; (X) every array index and every indexing call outside the parser: recognised idiom, "
+         "`index < len` established on every path, or reviewed entry; (V) presence of every refusal clause of "
          "the datagram/ack validators and that the sinks are guarded by them; (I) the frame parser's length guards "
-         "dominate its indexing. Not decided: absence of implicit arithmetic-overflow and index panics outside the "
-         "parser (needs numeric window invariants no analysis here proves); wall-clock bounds.")
+         "dominate its indexing. Not decided: absence of implicit arithmetic-overflow panics (dev profile only); the numeric "
+         "window invariants behind the reviewed entries are argued, not proved; wall-clock bounds.")
 
 HC = "half_connection::HalfConnection::"
 
@@ -1579,6 +1582,158 @@ def check_index_inventory(cx, iid="C03.X"):
                 rec = inst.site(b, loc, construct, {"status": status})
                 if not status:
                     inst.violation(b.path, construct, "array index reachable from an entry point is not proved in range by any recognised idiom or reviewed entry: " + (why or "unrecognised shape"), at=b.span_at(loc))
+        check_index_calls(cx, inst, reach)
+
+
+def _strip_casts(s):
+    """`cast<ty>(X)` -> X, repeatedly (string form)"""
+    while True:
+        m = re.search(r"cast<\w+>\(", s)
+        if not m:
+            return s
+        i = m.end()
+        depth = 1
+        while i < len(s) and depth:
+            depth += {"(": 1, ")": -1}.get(s[i], 0)
+            i += 1
+        s = s[:m.start()] + s[m.end():i - 1] + s[i:]
+
+
+# index *calls* (`Index::index` on a VecDeque / Vec / slice with a scalar or a range) outside the parser:
+# (function, collection, index shape, reason)
+INDEX_CALL_TABLE = [
+    (r".*loss_rate::LossIntervalQueue::compute_loss_rate", r"arg1\.entries", r"(0|Range::next\(var\)@Some\.0)",
+     "entries[0] under len > 0; entries[i] for i in 0..len-1 and 1..len, both inside the queue"),
+    (r".*loss_rate::LossIntervalQueue::reset", r"arg1\.entries", r"0", "reset() is the slow-start callback of handle_feedback, invoked only under loss_increase (loss_rate > prev >= 0); compute_loss_rate returns 0 for an empty queue and the queue never becomes empty again (truncate(9), truncate(1)); truncate(1) keeps entry 0"),
+    (r".*fragment_buffer::FragmentBuffer::write", r"arg1\.buffer", r"Range\{mul\(MAX_FRAGMENT_SIZE,arg2\),add\(\[T\]::len\(arg3\),mul\(MAX_FRAGMENT_SIZE,arg2\)\)\}",
+     "fragment i occupies [i*M, i*M+len) of a buffer of num_fragments*M bytes: i < num_fragments (C03.B/C03.T), len <= M (validator)"),
+    (r".*pending_packet::PendingPacket::datagram", r"arg1\.data", r"Range(From)?\{mul\(MAX_FRAGMENT_SIZE,(cast<usize>\()?arg2\)?\).*\}",
+     "sender side: fragment ids 0..=last_fragment_id are enumerated from the packet's own length (C04.c, C04.h)"),
+    (r".*serial::build::(DataFrameBuilder|AckFrameBuilder)::build", r"arg1\.buffer", r"\d+", "writer side: constant offset into a buffer created with the header already in it"),
+    (r".*frame::serial::write_\w+", r".*", r"Range(To|From)?\{.*\}", "writer side: fixed-size literal frames, ranges from the literal's own length"),
+    (r"(server::Server|client::Client)::handle_frames", r"var", r"RangeTo\{UdpSocket::recv(_from)?\(arg1\.socket,var\)@Ok\.0(\.0)?\}", "recv returns at most the buffer's length"),
+]
+
+
+def _index_call_auto(cx, b, loc, coll, idx):
+    """`X[i]` is in range when `i < X.len()` is established on every path (numeric casts ignored; a crate-local len()
+    helper that returns the collection's length counts as the collection's length)"""
+    R = cx.R
+    i0 = _strip_casts(idx)
+    alts = cx.fa(b).at(loc) or []
+    if not alts:
+        return False
+    lens = {"VecDeque::len(%s)" % coll, "Vec::len(%s)" % coll, "[T]::len(%s)" % coll}
+    m = re.fullmatch(r"(arg\d+|var\d+)\.(\w+)", coll)
+    if m:
+        from rules import pure_summary
+        for pth in R.fns:
+            if pth.endswith("::len") and pure_summary(R, pth) is not None:
+                summ = _strip_casts(show(pure_summary(R, pth)))
+                if re.fullmatch(r"(VecDeque|Vec|\[T\])::len\(arg1\.%s\)" % re.escape(m.group(2)), summ):
+                    lens.add("%s(%s)" % (R.short(pth), m.group(1)))
+    for alt in alts:
+        ok = False
+        for lit in alt:
+            ls = _strip_casts(lit)
+            for L in lens:
+                if ls == "lt(%s,%s)" % (i0, L):
+                    ok = True
+        if not ok:
+            return False
+    return True
+
+
+def _range_index_auto(cx, b, loc, coll, idx_e):
+    """`X[i + c]` with i drawn from `lo..hi`: in range when lo + c >= 0 and hi + c <= X.len(), where an upper bound of
+    the form len - k additionally needs len >= k established on the path (no wrap of the subtraction)"""
+    from rules import poly
+    from fractions import Fraction
+    try:
+        pl = poly(idx_e)
+    except Exception:
+        return False
+    K, c = None, 0
+    for mono, co in pl.items():
+        if mono == ():
+            c = co
+            continue
+        mm = re.fullmatch(r"Range::next\(var(\d+)\)@Some\.0", mono[0]) if len(mono) == 1 else None
+        if not mm or co != 1 or K is not None:
+            return False
+        K = int(mm.group(1))
+    if K is None or Fraction(c).denominator != 1:
+        return False
+    rng = None
+    for l2, kind, node in b.defs.get(K, []):
+        ce = b.call_expr(node) if kind == "call" else b.rvalue_expr(node["rv"]) if kind == "assign" else None
+        if ce and ce[0] == "call" and ce[1].endswith("into_iter") and ce[2] and ce[2][0][0] == "agg" and ce[2][0][1] == "Range":
+            rng = (ce[2][0][2][0], ce[2][0][2][1])
+    if rng is None:
+        return False
+    try:
+        plo, phi = poly(rng[0]), poly(rng[1])
+    except Exception:
+        return False
+    if set(plo) - {()} or plo.get((), 0) + c < 0:
+        return False
+    lens = ["VecDeque::len(%s)" % coll, "Vec::len(%s)" % coll, "[T]::len(%s)" % coll]
+    L = [m for m in phi if m != ()]
+    if len(L) != 1 or len(L[0]) != 1 or L[0][0] not in lens or phi[L[0]] != 1:
+        return False
+    k = -phi.get((), 0)          # hi = len - k
+    if k < 0 or c - k > 0:       # hi + c = len - k + c must not exceed len
+        return False
+    if k > 0:
+        # len >= k on every path, so that `len - k` does not wrap
+        alts = cx.fa(b).at(loc) or []
+        if not alts:
+            return False
+        for alt in alts:
+            lb = 0
+            for lit in alt:
+                m1 = re.fullmatch(r"lt\((\d+),(.*)\)", lit)
+                m2 = re.fullmatch(r"le\((\d+),(.*)\)", lit)
+                m3 = re.fullmatch(r"ne\(0,(.*)\)", lit)
+                if m1 and m1.group(2) == L[0][0]:
+                    lb = max(lb, int(m1.group(1)) + 1)
+                if m2 and m2.group(2) == L[0][0]:
+                    lb = max(lb, int(m2.group(1)))
+                if m3 and m3.group(1) == L[0][0]:
+                    lb = max(lb, 1)
+            if lb < k:
+                return False
+    return True
+
+
+def check_index_calls(cx, inst, reach):
+    R = cx.R
+    parsers = [R.fn(p)["path"] for p in PARSERS]
+    for b in R.all_bodies():
+        if b.path not in reach or b.path in parsers:
+            continue
+        for loc, t in b.calls():
+            fn = t.get("fn") or ""
+            if not re.search(r"::index(_mut)?$", R.short(fn)) or len(t["args"]) != 2:
+                continue
+            e = b.call_expr(t)
+            sh = show(e)
+            coll = show(b.operand_expr(t["args"][0]))
+            idx = show(b.operand_expr(t["args"][1]))
+            construct = norm_vars("%s: %s[%s]" % (R.short(fn), coll[:40], idx[:80]))
+            status = None
+            if _index_call_auto(cx, b, loc, coll, idx):
+                status = "auto: index < len established on every path"
+            elif _range_index_auto(cx, b, loc, coll, b.operand_expr(t["args"][1])):
+                status = "auto: loop variable of a range bounded by the collection's length"
+            else:
+                for frx, crx, irx, reason in INDEX_CALL_TABLE:
+                    if re.fullmatch(frx, b.path) and re.fullmatch(crx, norm_vars(coll)) and re.fullmatch(irx, norm_vars(idx)):
+                        status = "reviewed: " + reason
+                        break
+            inst.site(b, loc, construct, {"status": status})
+            if not status:
+                inst.violation(b.path, construct, "indexing a collection (panics when out of range) with an index that is neither established below the length on every path nor a reviewed entry", at=b.span_at(loc))
 
 
 def _lk_weights(cx, inst, b, n):
